@@ -296,3 +296,46 @@ def f_to_numpy(I, recv, args, kwargs):
 @method("frame", "copy")
 def f_copy(I, recv, args, kwargs):
     return SFrame(recv.index, recv.values, recv.columns)
+
+
+# ----------------------------------------------------------------------------- result tables (evaluate / tuning)
+
+class STable:
+    """pd.DataFrame used as an accumulator of result rows: only the number of rows is tracked, every appended row
+    is recorded as a ghost event ('table.append', row dict)."""
+
+    def __init__(self, nrows=0, tag="table"):
+        self.nrows = nrows
+        self.tag = tag
+        self.cols = {}
+
+
+@lib("pandas.DataFrame")
+def pd_dataframe(I, args, kwargs):
+    if not args and not kwargs:
+        return STable(0)
+    data = arg(args, kwargs, 0, "data")
+    if isinstance(data, STable):
+        return data
+    raise Undecided("pd.DataFrame(data)")
+
+
+from .libmodels import METHODS as _M2, Event as _Event  # noqa: E402
+
+
+def _t_append(I, recv, args, kwargs):
+    row = args[0]
+    I.ctx.trace.append(_Event(recv, "table.append", [row], kwargs, None, getattr(I.ctx, "loop_k", None)))
+    t = STable(ops.scalar_arith(I.ctx, "Add", recv.nrows, 1), recv.tag)
+    return t
+
+
+def _t_same(I, recv, args, kwargs):
+    I.ctx.trace.append(_Event(recv, "table." + I.cur_node.func.attr, list(args), kwargs, None, getattr(I.ctx, "loop_k", None)))
+    return STable(recv.nrows, recv.tag)
+
+
+_M2[("STable", "append")] = _t_append
+_M2[("STable", "drop")] = _t_same
+_M2[("STable", "astype")] = _t_same
+_M2[("STable", "copy")] = _t_same
